@@ -421,11 +421,11 @@ ExtractMut(w) ==
     ELSE {E("Catalog", "SetValue", 1, <<t, 1>>, "") : t \in Toks} \cup
          {E("Catalog", "RemoveValue", 1, <<t>>, "") : t \in Toks}
 
-\* Family "iterK" (C17): an iterator over an Array, Set, Stack or Queue: every
+\* Family "iterK" (C17): an iterator over an Array, List, Set, Stack or Queue: every
 \* move, and one change of the source (costly) which the iterator must not see
 EventsIterK(w) ==
     CASE Len(w) = 0 -> {E("GoArray", "New", 0, <<l>>, "V") : l \in {<<>>, <<1>>, <<0, 1, 2>>}}
-      [] Len(w) = 1 -> {E(kk, "MakeFromArray", 0, <<1>>, "V") : kk \in {"Array", "Set", "Stack", "Queue"}}
+      [] Len(w) = 1 -> {E(kk, "MakeFromArray", 0, <<1>>, "V") : kk \in {"Array", "List", "Set", "Stack", "Queue"}}
       [] Len(w) = 2 -> {E(w[2].kind, "GetIterator", 2, <<>>, "")}
       [] Len(w) = 3 -> IterEv(3, Len(w[3].s))
       [] OTHER -> {}
@@ -446,7 +446,15 @@ EvSets(w) ==
       [] Family = "extract"  -> << EventsExtract(w), Costly(ExtractMut(w)) >>
       [] Family = "keysC"    -> << EventsKeys("Catalog", w) >>
       [] Family = "keysM"    -> << EventsKeys("Map", w) >>
-      [] Family = "iterK"    -> << EventsIterK(w), Costly(IF Len(w) = 3 THEN MutEv(w, 2, "V") ELSE {}) >>
+      [] Family = "iterK"    -> << EventsIterK(w),
+                                   Costly(IF Len(w) = 3
+                                          THEN MutEv(w, 2, "V") \cup
+                                               \* re-ordering in place: the iterator already taken must not move,
+                                               \* one taken afterwards (the projection takes one) must follow
+                                               (IF w[2].kind \in {"List", "Array"}
+                                                THEN {E(w[2].kind, "SortValuesWithRanker", 2, <<"rev">>, ""),
+                                                      E(w[2].kind, "ReverseValues", 2, <<>>, "")} ELSE {})
+                                          ELSE {}) >>
       [] Family = "sort"     -> << EventsSort(w) >>
       [] Family = "sortA"    -> << EventsSortA(w) >>
       [] Family = "alias"    -> EvSetsAlias(w)
